@@ -14,7 +14,7 @@ import os
 import vlib
 import progs
 
-THEOREM_MODULES = ["Yarel.Props.C04", "Yarel.Props.OpcodeTable"]
+THEOREM_MODULES = ["Yarel.Props.C04", "Yarel.Props.OpcodeTable", "Yarel.Props.ModelLimits"]
 REQUIRED_THEOREMS = ["verify_sound", "checkAnnot_sound", "verify_unique_height", "verify_progress", "opcode_table_agrees"]
 USES_GEN = True
 LEVEL = "proof"
@@ -118,7 +118,7 @@ def correspondence(ctx, model_ok=True):
     rng = ctx.rng.fork("c04")
     failures = []
     broken = []
-    n_gen = 1500 if ctx.thorough else 720
+    n_gen = 9000 if ctx.thorough else 720
     gen = progs.generated(rng, PROFILES, n_gen)
     scripts = progs.corpus_scripts()
     corpus = progs.corpus_dir("C04")
